@@ -29,8 +29,8 @@ confirm)
   [ $d1 -ne 0 ] && [ $d0 -eq 0 ]
   ;;
 detect)
-  pf=$1; shift; id=$(echo $pf | tr '/' '_'); w=/tmp/mut/d-$$; mkdir -p /tmp/mut /tmp/mut/out-$$; mk $w
-  ( cd $w && git apply $pf ) || { echo "patch does not apply"; rmw $w; exit 2; }
+  pf=$(realpath "$1"); shift; id=$(echo $pf | tr '/' '_'); w=/tmp/mut/d-$$; mkdir -p /tmp/mut /tmp/mut/out-$$; mk $w
+  ( cd $w && git apply $pf ) || { echo "DETECT $pf: caught-by: PATCH-DOES-NOT-APPLY"; rmw $w; exit 2; }
   cp /verif/known_findings.txt /tmp/mut/out-$$/
   /verif/bin/pvcheck -repo $w -out /tmp/mut/out-$$ -property all -tier ${TIER:-quick} > /tmp/mut/out-$$/all.log 2>&1
   caught=$(grep '^ALL caught-by:' /tmp/mut/out-$$/all.log | sed 's/ALL caught-by://')
